@@ -146,6 +146,7 @@ def build_bus_glue(bus_std, bus_dw, m_dw, m_addressing, s_dw, mem_bytes=512):
                                         bus=wishbone.Interface(data_width=s_dw, address_width=32, addressing="word"))
     s_ad = top.bus.add_adapter("s", top.sram.bus, "s2m")
     top.comb += m_ad.connect(s_ad)
+    top.m_ad = m_ad
     return top
 
 
